@@ -1,6 +1,9 @@
-(* C03 — SQL DDL states exactly the model.  PARTIAL: the database-level composition is proved;
-   the statement-level reading (columns, flags, defaults, keys, indexes, comments) rests on the
-   model/implementation tie plus the independent DDL reader of the check (see DESIGN 6). *)
+(* C03 — SQL DDL states exactly the model.  PARTIAL: the database-level composition is proved, and (proofs/DdlText.v) the
+   statement-level text each renderer of the model emits is characterised exactly, for every heap: column line with its flags
+   and DEFAULT exactly when set, CREATE [UNIQUE] INDEX / PRIMARY KEY clause, CREATE TYPE with one line per item in order,
+   CREATE TABLE with one row per column in order, COMMENT ON addressing the current names (LiveLinks.v).  That the model's
+   renderers are the implementation's rests on the tie; the inverse reading (DDL reader applied to the text gives back the
+   statement list) is the check's independent DDL reader, not a theorem. *)
 From PyDBML Require Import PyStr Py Heap Classes RenderSQL SqlFacts GenClasses GenTie.
 From Coq Require Import Permutation.
 Import ListNotations.
@@ -30,3 +33,95 @@ Theorem C03_enum_item_renderer_regenerated_from_source :
   forall i, sql_enum_item i = do _ <- check_attributes (OEnumItem i); Ok (gen_render_enum_item_sql i).
 Proof. exact gen_render_enum_item_sql_is_model. Qed.
 Print Assumptions C03_enum_item_renderer_regenerated_from_source.
+
+(* ---- statement-level text (proofs/DdlText.v) ---- *)
+From PyDBML Require Import Tools LiveLinks DdlText.
+Theorem C03_column_line_text :
+  forall h c s, sql_column h c = Ok s ->
+  exists ty dflt, type_text h (c_type c) ty /\ default_clause h (c_default c) dflt /\
+    s = with_comment (c_comment c)
+          (join [cSP] ([q2 (fstr (c_name c)); ty]
+                       ++ flag (c_pk c && negb (table_composite_pk h (c_table c))) (s2l "PRIMARY KEY")
+                       ++ flag (c_autoinc c) (s2l "AUTOINCREMENT") ++ flag (c_unique c) (s2l "UNIQUE")
+                       ++ flag (c_not_null c) (s2l "NOT NULL") ++ dflt)).
+Proof. exact sql_column_text. Qed.
+Print Assumptions C03_column_line_text.
+
+Theorem C03_column_flags_and_default_exactly_when_set :
+  forall h c s, sql_column h c = Ok s -> c_comment c = None ->
+  exists ty dflt, s = join [cSP] ([q2 (fstr (c_name c)); ty] ++ flag (c_pk c && negb (table_composite_pk h (c_table c))) (s2l "PRIMARY KEY")
+                                  ++ flag (c_autoinc c) (s2l "AUTOINCREMENT") ++ flag (c_unique c) (s2l "UNIQUE")
+                                  ++ flag (c_not_null c) (s2l "NOT NULL") ++ dflt) /\ (dflt = [] <-> c_default c = DNone).
+Proof. exact sql_column_flags. Qed.
+Print Assumptions C03_column_flags_and_default_exactly_when_set.
+
+Theorem C03_index_statement_text :
+  forall h i t tb subs ks,
+  i_subjects i = Some subs -> i_table i = Some t -> h_table h t = Some tb -> mapM (sql_subject h) subs = Ok ks ->
+  sql_index h i = Ok (with_comment (i_comment i)
+    (if i_pk i then s2l "PRIMARY KEY (" ++ join (s2l ", ") ks ++ [41%N]
+     else s2l "CREATE " ++ (if i_unique i then s2l "UNIQUE " else []) ++ s2l "INDEX "
+          ++ (if truthy (i_name i) then q2 (fstr (i_name i)) ++ [cSP] else [])
+          ++ s2l "ON " ++ full_name_for_sql (t_schema tb) (t_name tb) ++ [cSP]
+          ++ (if truthy (i_type i) then s2l "USING " ++ upper (fstr (i_type i)) ++ [cSP] else [])
+          ++ 40%N :: join (s2l ", ") ks ++ s2l ");")).
+Proof. exact sql_index_text. Qed.
+Print Assumptions C03_index_statement_text.
+
+Theorem C03_enum_statement_text :
+  forall h e s, sql_enum h e = Ok s ->
+  exists items rows, e_items e = Some items /\
+    Forall2 (fun i row => exists it s0, h_enumitem h i = Some it /\ sql_enum_item it = Ok s0 /\ row = textwrap_indent s0 (s2l "  ")) items rows /\
+    s = with_comment (e_comment e)
+          (s2l "CREATE TYPE " ++ full_name_for_sql (e_schema e) (e_name e) ++ s2l " AS ENUM (" ++ [cLF]
+           ++ rstrip_chars [44%N] (join [cLF] rows) ++ cLF :: s2l ");").
+Proof. exact sql_enum_text. Qed.
+Print Assumptions C03_enum_statement_text.
+
+Theorem C03_table_statement_lists_its_columns_in_order :
+  forall h tid t s, sql_table h tid t = Ok s ->
+  exists colrows idxs pkrows fkrows cpk others notes,
+    Forall2 (fun c row => exists cc s0, h_column h c = Some cc /\ sql_column h cc = Ok s0 /\ row = textwrap_indent s0 (s2l "  ")) (t_columns t) colrows /\
+    Forall2 (fun i p => exists ix, h_index h i = Some ix /\ p = (i, ix)) (t_indexes t) idxs /\
+    Forall2 (fun p row => exists s0, sql_index h (snd p) = Ok s0 /\ row = textwrap_indent s0 (s2l "  ")) (filter (fun p => i_pk (snd p)) idxs) pkrows /\
+    Forall2 (fun p st => exists s0, sql_index h (snd p) = Ok s0 /\ st = cLF :: s0) (filter (fun p => negb (i_pk (snd p))) idxs) others /\
+    s = join [cLF] ((if truthy (t_comment t) then [comment_to_sql (fstr (t_comment t))] else [])
+                    ++ [s2l "CREATE TABLE " ++ full_name_for_sql (t_schema t) (t_name t) ++ s2l " (";
+                        join (s2l "," ++ [cLF]) (colrows ++ pkrows ++ fkrows ++ cpk); s2l ");"]
+                    ++ others) ++ notes /\
+    length cpk <= 1 /\ (cpk = [] <-> has_composite_pk h t = false).
+Proof. exact sql_table_text. Qed.
+Print Assumptions C03_table_statement_lists_its_columns_in_order.
+
+Theorem C03_comment_on_addresses_current_names :
+  (forall h n p t, n_text n <> [] -> n_parent n = Some p -> h_table h p = Some t ->
+     sql_note h n = Ok (s2l "COMMENT ON TABLE " ++ full_name_for_sql (t_schema t) (t_name t) ++ s2l " IS " ++ cSQ :: prepare_text_for_sql (n_text n) ++ [cSQ; 59%N])) /\
+  (forall h n p c, n_text n <> [] -> n_parent n = Some p -> h_column h p = Some c ->
+     sql_note h n = Ok (s2l "COMMENT ON COLUMN " ++ q2 (fstr (c_name c)) ++ s2l " IS " ++ cSQ :: prepare_text_for_sql (n_text n) ++ [cSQ; 59%N])).
+Proof. split; [exact sql_note_owner_table_current|exact sql_note_owner_column_current]. Qed.
+Print Assumptions C03_comment_on_addresses_current_names.
+
+Theorem C03_table_text_example :
+  sql_table dt_heap 3 dt_tab = Ok (s2l "CREATE TABLE ""t"" (
+  ""id"" int PRIMARY KEY AUTOINCREMENT,
+  ""n"" int UNIQUE NOT NULL DEFAULT 0
+);
+
+CREATE UNIQUE INDEX ON ""t"" (""n"");").
+Proof. exact table_text_example. Qed.
+Print Assumptions C03_table_text_example.
+
+(* the qualified name used by CREATE TABLE / CREATE TYPE / CREATE INDEX ON / COMMENT ON / REFERENCES (and by the DBML renderer) is
+   regenerated from the source text of get_full_name_for_sql / get_full_name_for_dbml on every run *)
+From PyDBML Require Import RenderDBML.
+Theorem C03_qualified_name_regenerated_from_source :
+  (forall s n, gen_get_full_name_for_sql (mkNamed s n) = full_name_for_sql s n) /\
+  (forall s n, gen_get_full_name_for_dbml (mkNamed s n) = full_name_for_dbml s n).
+Proof. split; [exact gen_get_full_name_for_sql_is_model|exact gen_get_full_name_for_dbml_is_model]. Qed.
+Print Assumptions C03_qualified_name_regenerated_from_source.
+
+(* the PRIMARY KEY clause of a pk index is the one render_pk writes (regenerated from its source text) *)
+Theorem C03_pk_clause_regenerated_from_source :
+  forall i keys, with_comment (i_comment i) (s2l "PRIMARY KEY (" ++ keys ++ [41%N]) = gen_render_pk_sql i keys.
+Proof. exact gen_render_pk_sql_is_model. Qed.
+Print Assumptions C03_pk_clause_regenerated_from_source.
